@@ -15,6 +15,12 @@ class CachedDataset(Dataset):
             sample = self.transform(sample)
         return sample
 
+    def __getitems__(self, indices):
+        # the DataLoader fetches whole batches via dataset.__getitems__ if the dataset has one (torch >= 2.1)
+        # without this method __getattr__ would hand out the __getitems__ of the wrapped dataset (e.g. Subset),
+        # i.e. batches would bypass the cache and the transform
+        return [self[idx] for idx in indices]
+
     def __len__(self):
         return len(self.dataset)
 
